@@ -52,8 +52,36 @@ var extraExplanations2 = map[string]string{
 	"C41": "R-LOCAL-ARRAYS-RELEASED: functions that park freshly built arrays in a local column slice release them on every return (per-element defer, or a cleanup loop over the slice on the error path).",
 }
 
+// Rules added after the second seeding round, remaining properties (rules_seedfix4.go and
+// the extensions of seedfixC33 / R-DATE-FLOOR).
+var extraExplanations3 = map[string]string{
+	"C01": "R-FRAME-FRESH-META: WriteRequest builds the frame's metadata from its arguments and never reads the metadata already attached to params. R-METHOD-VERBATIM: ReadRequest applies no string transform to request metadata and refuses (under !utf8.ValidString) a malformed method name. R-RESULT-VERBATIM: WriteUnaryResult appends exactly resultBytes, unconditionally (no null/empty special case).",
+	"C02": "R-READER-PER-CONNECTION: the reader a serve loop passes to serveOne is created outside the loop (a per-request buffered reader drops its read-ahead).",
+	"C05": "R-ENVELOPE-ERR-IS-HANDLERS: no error written into an exception batch originates from ctx.Err()/context.Cause (the handler's error is never replaced by the cancellation).",
+	"C07": "R-DEFAULT-OWN-CELL: tagInfo.Default points at a variable allocated and written once beside the store (not a cell shared between options or loop iterations). R-INSTANT-NO-SCALE: timestampToTime passes the wire value unscaled to time.Unix/UnixMilli/UnixMicro and contains no multiplication.",
+	"C08": "R-NO-POOLED-BYTES: no function returns Bytes() of a buffer it gives back to a sync.Pool. R-INSTANT-NO-SCALE: see C07. R-DICT-BY-CODE: every read of a dictionary's value array is indexed by GetValueIndex(row). R-DATE-FLOOR (tightened): the day number is stepped back exactly under (secs % day) < 0 of the same division.",
+	"C10": "R-VERSION-FLAG-ALWAYS-SET: SetProtocolVersion writes protocolVersionSet on every path, false under v == \"\" and true under v != \"\".",
+	"C11": "R-CAST-KEEPS-META: castRecordBatch rebuilds the batch with the source's Metadata(). R-CAST-WHENEVER-DIFFERENT: no input-cast site (HTTP exchange, pipe loop) is conditioned on the batch's contents. R-CALLTOKEN-SCHEMA: /init mints call tokens with the schema the response stream is written with.",
+	"C17": "R-NEGOTIATE-PER-REQUEST: the codec and header choice given to the compressing writer are the results of this request's chooseResponseEncoding call (directly or through a helper that returns nothing else), and that call is given producibleResponseEncodings() computed at the call.",
+	"C18": "R-EXEMPT-WHOLE-SEGMENT: the cap exemption's prefix tests end in \"/\". R-CLAMP-REACHES-DEFAULT: every path that takes the 16× default decoded-size cap also tests requestCapApplied (before or after). R-GZIP-ALL-MEMBERS: no gzip reader has multistream switched.",
+	"C23": "R-VALIDATOR-VERBATIM: after validate(token), BearerAuthenticate returns exactly the validator's two results. R-UNWRAP-UNBOUNDED: asAuthFailure's walk is governed by no integer comparison (no depth bound).",
+	"C27": "R-ALLOWLIST-VERBATIM: allowlist keys are the configured strings, not call results. R-RELATIVE-ONLY: validateOriginalURL tests both Scheme and Host for emptiness. R-STATE-WHOLE: both operands of the state comparison are direct []byte conversions of the strings.",
+	"C28": "R-READER-SINGLE: each of the six exported readers makes exactly one call, to parseQuotedParam. R-CHALLENGE-REBUILT: every success return of SetOAuthResourceMetadata follows a store of wwwAuthenticate.",
+	"C30": "R-NO-POOLED-BYTES: see C08. R-SHA-WHENEVER-PRESENT: the checksum computation in ResolveExternalLocation is guarded only by the pointer's keys and nil tests.",
+	"C32": "R-FIRST-RESULT-COUNTS: chunksRemaining is decremented only under results[index] == nil. R-CHUNKS-TILE: ranges advance by the divisor of the ceil() that yields numChunks, and numChunks is assigned once.",
+	"C33": "R-KEY-FULL-READ: the id helpers use no pooled or math/rand generator and no single Reader.Read whose count is ignored. R-KEY-WHOLE: the key handed to the store is never a slice of the prefix+id string.",
+	"C34": "R-ATTACH-SIZE-EXACT: validateHeader compares data_size for equality.",
+	"C35": "R-FREE-KEEPS-ORDER: freeAtLocked removes an entry by append(allocs[:i], allocs[i+1:]...) and stores into no table slot. R-SOURCE-ALWAYS-STAMPED: the shm_source key is appended regardless of the pointer's own shm_source.",
+	"C36": "R-NESTED-COVERAGE, R-SCHEMA-CACHE-KEY: see C35 — they decide whether the shm write path produces what the plain path produces.",
+	"C38": "R-NO-POOLED-BYTES: see C08 (SerializeRequestBatch). R-STREAM-ID-FIXED-WIDTH: RandomStreamID returns hex.EncodeToString over the whole 16-byte array or a 32-character constant.",
+	"C39": "R-ERROR-NEVER-SAMPLED-OUT: every non-true return of keep is dominated by status != \"error\" standing alone. R-ENQUEUE-NO-LOCK: emit takes no lock and calls enqueue with none held.",
+	"C40": "R-START-HOOK-EVERY-REQUEST: ServeHTTP calls notifyTransport itself, not inside a closure. R-ENCODER-RETURNED-ONCE: finish closes the pooled codec writer at most once on any path.",
+	"C42": "R-NO-STALE-TIMER: in RunTcp and RunUnix a pending idle timer is stopped either before a new one is armed or on the accept path.",
+	"C43": "R-TOKEN-TYPE-AGREES: every token OnDispatchStart returns has the dynamic type OnDispatchEnd asserts. R-METRIC-ATTRS-PER-CALL: the attribute option given to the instruments does not come from a sync.Map/Pool or an attribute cache field.",
+}
+
 func applyExtraExplanations() {
-	for _, m := range []map[string]string{extraExplanations, extraExplanations2} {
+	for _, m := range []map[string]string{extraExplanations, extraExplanations2, extraExplanations3} {
 		for id, extra := range m {
 			if p, ok := registry[id]; ok {
 				p.Explanation += " " + extra
